@@ -424,12 +424,14 @@ impl WireEncode for WireHostAddr {
             WireHostAddr::V4(_) => Ok(()),
             WireHostAddr::V6(_) => Ok(()),
             WireHostAddr::Svc(_) => Ok(()),
-            WireHostAddr::Unknown { bytes, .. } => {
+            WireHostAddr::Unknown { id, bytes } => {
                 if bytes.is_empty() {
                     Err("ScionHostAddr::Unknown bytes.len() must be non-zero".into())
                 } else if !bytes.len().is_multiple_of(4) {
                     Err("ScionHostAddr::Unknown bytes.len() must be a multiple of 4".into())
-                } else if WireHostAddrType::from(u8::from(self.addr_type())) != self.addr_type() {
+                } else if *id > 0b11
+                    || WireHostAddrType::from(u8::from(self.addr_type())) != self.addr_type()
+                {
                     // The type/length nibble has 2 bits for the id, and three of its values denote
                     // IPv4, IPv6 and service addresses: such an address would be decoded as
                     // something else.
